@@ -744,16 +744,30 @@ func (h *History) askAll() bool {
 							sig = "C14/lingering/" + e.Index + "/" + c
 							r.Count("surplus_answers_of_class_"+c, 1)
 						}
-						if c == "" && e.Index == "tsi1" {
+						dataSurvived := false
+						if c == "" {
 							// diagnosis only: is the answer still wrong once the index is at rest?
 							e.WaitTSI()
 							if again, err := q.Ask(e); err == nil {
 								h.settled = append([]string{fmt.Sprintf("%d entries:", len(again))}, showAll(again)...)
 							}
 							h.settled = append(h.settled, e.lastNames...)
+							for _, id := range q.Scope {
+								live := h.m.Live([]uint64{id})
+								for k := range e.DataSeries(id) {
+									if _, ok := live[k]; !ok {
+										h.settled = append(h.settled, fmt.Sprintf("shard %d still holds DATA (cache/TSM key) of %s, which the model saw deleted", id, show(k)))
+										dataSurvived = true
+									}
+								}
+							}
 							for _, s := range sp {
 								h.settled = append(h.settled, e.MeasurementDetail(q.Scope, strings.SplitN(s, "\x00", 2)[0])...)
 							}
+						}
+						if dataSurvived {
+							// the index agrees with data that a delete should have removed: delete-path cause (C02 / C10 territory)
+							sig += "/data-survived-delete"
 						}
 						if !h.fail(sig, e, q.Desc, q.Scope, q.Want, got, missing, sp,
 							fmt.Sprintf("%s store: %s on shards %v returns %q which no live series justifies (want %q, got %q)", e.Index, q.Desc, q.Scope, showAll(sp), showAll(q.Want), showAll(got))) {
